@@ -19,6 +19,7 @@ func checkC10(c *Check) {
 
 	// ---- R1
 	c.manifestVersionRule("R1")
+	c.onlyValidatedRecorded("R1")
 
 	// ---- R2 hash covers everything
 	mp := l.Pkg("manifest")
